@@ -1,6 +1,6 @@
 CONSTANTS
   Fields = {1, 3, 4, 5}
-  Sizes = {0, 36, 4096}
+  Sizes = {0, 40, 4096}
   MaxOps = 6
   Defects = {"NoEvict"}
 SPECIFICATION Spec
